@@ -376,7 +376,8 @@ def make_problems(ctx: Ctx, n: int):
     rng = ctx.rng
     pbs = []
     for i in range(n):
-        pb = solverun.gen_problem(rng, i, grid=False, allow_start_symbol=True)
+        # every fifth problem is configured with a start symbol other than <start>
+        pb = solverun.gen_problem(rng, i, grid=False, allow_start_symbol=True, force_start_symbol=(i % 5 == 4))
         g_in = dict(pb["grammar"])
         if pb.get("start_symbol"):
             g_in["<start>"] = [pb["start_symbol"]]
@@ -399,6 +400,7 @@ def run(ctx: Ctx):
     problems = make_problems(ctx, 110 if quick else 2500)
     for pb, res in run_all(problems, wall_limit=60.0, deadline=ctx.t0 + (170 if quick else 5400)):
         ctx.count("origin", pb["origin"])
+        ctx.count("configuration", "start_symbol other than <start>" if pb.get("start_symbol") else "default start symbol")
         evaluate_problem(ctx, pb, res)
     ctx.obligation("correspondence: check / parse == composition of the verified recognizer, tree checker and reference evaluator; repair / mutate results certified", not ctx.violations)
     if not ok and not ctx.violations:
